@@ -32,6 +32,7 @@ CONSTANTS
     CmpOpsM,       \* comparison spelling ids enumerated
     LogSpM,        \* AND/OR/NOT spelling variants enumerated
     WithFunc,      \* leaves: an atom, and a function call when TRUE
+    TypedM,        \* FALSE: every tree over KindsM; TRUE: only the well-typed ones (see TypeOf)
     \* ---- the mechanism model (what mapfile.lark + transformer.py do) ----
     Ladder,        \* "lark": or_test < and_test < comparison < sum < product; "swapped": or/and exchanged
     AndOrParens,   \* and_test / or_test build "( a AND b )"
@@ -201,31 +202,50 @@ Normal(ts) == LET g == GParse(ts) IN IF g = ErrT THEN <<>> ELSE IF g[1] # "PAREN
 -----------------------------------------------------------------------------
 (* Tree sets                                                               *)
 
-Ops1(kinds, sps) == {<<k, 0>> : k \in kinds \cap {"NEG", "PAREN"}}
-                    \cup {<<"NOT", s>> : s \in IF "NOT" \in kinds THEN sps ELSE {}}
-Ops2(kinds, cmps, sps) == {<<k, 0>> : k \in kinds \cap Arith}
-                          \cup {<<k, s>> : k \in kinds \cap Logic, s \in sps}
-                          \cup {<<"CMP", c>> : c \in IF "CMP" \in kinds THEN cmps ELSE {}}
+\* Types (MapServer's expression grammar is typed): "A" a value - number, string, binding, function
+\* call, arithmetic; "L" a logical value.  Arithmetic operators, unary minus and comparisons take
+\* values; AND OR NOT take logical values or values; % (a comparison operator in mapfile.lark)
+\* yields a value.  P = [kinds, cmps, sps, leaves, typed]; typed = FALSE: every tree over the kinds.
+RECURSIVE TypeOf(_)
+TypeOf(x) == CASE x[1] \in {"ATOM", "FUNC", "NEG"} \cup Arith -> "A"
+               [] x[1] = "CMP" -> IF x[2] = PctOp THEN "A" ELSE "L"
+               [] x[1] = "PAREN" -> TypeOf(x[3])
+               [] OTHER -> "L"
 
-RECURSIVE TreesN(_, _, _, _, _)
-TreesN(n, kinds, cmps, sps, leaves) ==           \* trees with exactly n operator nodes
-    IF n = 0 THEN leaves
-    ELSE {<<o[1], o[2], x>> : o \in Ops1(kinds, sps), x \in TreesN(n - 1, kinds, cmps, sps, leaves)}
-         \cup UNION {
-              {<<o[1], o[2], l, r>> :
-                  o \in Ops2(kinds, cmps, sps),
-                  l \in TreesN(i, kinds, cmps, sps, leaves),
-                  r \in TreesN(n - 1 - i, kinds, cmps, sps, leaves)} : i \in 0..(n - 1)}
+PctCmps(P) == IF "CMP" \in P.kinds THEN P.cmps \cap {PctOp} ELSE {}
+RelCmps(P) == IF "CMP" \in P.kinds THEN P.cmps \ {PctOp} ELSE {}
+OpsA2(P)   == {<<k, 0>> : k \in P.kinds \cap Arith} \cup {<<"CMP", c>> : c \in PctCmps(P)}
 
-TreesUpTo(n, kinds, cmps, sps, leaves) == UNION {TreesN(i, kinds, cmps, sps, leaves) : i \in 0..n}
+RECURSIVE TA(_, _), TL(_, _), Sat(_, _, _)
+\* the trees with n operator nodes that may stand where a value ("A") / a logical or a value ("L") is wanted
+Sat(n, want, P) == IF want = "A" /\ P.typed THEN TA(n, P) ELSE TA(n, P) \cup TL(n, P)
+
+TA(n, P) ==
+    IF n = 0 THEN P.leaves
+    ELSE {<<"NEG", 0, x>> : x \in IF "NEG" \in P.kinds THEN Sat(n - 1, "A", P) ELSE {}}
+         \cup {<<"PAREN", 0, x>> : x \in IF "PAREN" \in P.kinds THEN TA(n - 1, P) ELSE {}}
+         \cup UNION {{<<o[1], o[2], l, r>> : o \in OpsA2(P), l \in Sat(i, "A", P), r \in Sat(n - 1 - i, "A", P)}
+                        : i \in 0..(n - 1)}
+
+TL(n, P) ==
+    IF n = 0 THEN {}
+    ELSE {<<"NOT", s, x>> : s \in IF "NOT" \in P.kinds THEN P.sps ELSE {}, x \in Sat(n - 1, "L", P)}
+         \cup {<<"PAREN", 0, x>> : x \in IF "PAREN" \in P.kinds THEN TL(n - 1, P) ELSE {}}
+         \cup UNION {{<<k, s, l, r>> : k \in P.kinds \cap Logic, s \in P.sps,
+                                        l \in Sat(i, "L", P), r \in Sat(n - 1 - i, "L", P)} : i \in 0..(n - 1)}
+         \cup UNION {{<<"CMP", c, l, r>> : c \in RelCmps(P), l \in Sat(i, "A", P), r \in Sat(n - 1 - i, "A", P)}
+                        : i \in 0..(n - 1)}
+
+TreesUpTo(n, P) == UNION {TA(i, P) \cup TL(i, P) : i \in 0..n}
 
 LeavesM == {<<"ATOM", 1>>} \cup (IF WithFunc THEN {<<"FUNC", 1>>} ELSE {})
+ParamsM == [kinds |-> KindsM, cmps |-> CmpOpsM, sps |-> LogSpM, leaves |-> LeavesM, typed |-> TypedM]
 
 -----------------------------------------------------------------------------
 (* (M) the builder machine                                                 *)
 
 MInit ==
-    /\ tree \in {<<"PAREN", 0, x>> : x \in TreesUpTo(MaxOps, KindsM, CmpOpsM, LogSpM, LeavesM)}
+    /\ tree \in {<<"PAREN", 0, x>> : x \in TreesUpTo(MaxOps, ParamsM)}
     /\ todo = PostOrder(GParse(Src(tree)))
     /\ stack = <<>>
     /\ forest = <<>> /\ ops = 0 /\ aux = 0 /\ phase = "build"
@@ -272,12 +292,14 @@ StableLead    == Stable \/ (Lead("stable") /\ FALSE)
 -----------------------------------------------------------------------------
 (* (G) emission: shapes (exhaustive) and walks (simulation)                *)
 
-Shape0 == {<<"ATOM", 0>>}
-Shapes == TreesUpTo(MaxOps, Unary \cup Binary, {0}, {0}, Shape0)
+\* well-typed shapes; spellings and operands still open (0), except % which is typed on its own
+Shapes == TreesUpTo(MaxOps, [kinds |-> Unary \cup Binary, cmps |-> {0, PctOp}, sps |-> {0},
+                             leaves |-> {<<"ATOM", 0>>}, typed |-> TRUE])
+RelOps(S) == S \ {PctOp}
 
 \* every spelling of the operator at the root
 RootSp(s) ==
-    CASE s[1] = "CMP"            -> {[s EXCEPT ![2] = o] : o \in RootCmpOps}
+    CASE s[1] = "CMP"            -> IF s[2] = PctOp THEN {s} ELSE {[s EXCEPT ![2] = o] : o \in RelOps(RootCmpOps)}
       [] s[1] \in {"OR", "AND", "NOT"} -> {[s EXCEPT ![2] = v] : v \in AllLogSp}
       [] OTHER -> {s}
 
@@ -293,7 +315,8 @@ Deco(t, keep, mode) ==
       [] k = "NOT"  -> <<k, IF keep THEN t[2] ELSE RandomElement(AllLogSp), Deco(t[3], FALSE, mode)>>
       [] k \in {"NEG", "PAREN"} -> <<k, 0, Deco(t[3], FALSE, mode)>>
       [] k \in Logic -> <<k, IF keep THEN t[2] ELSE RandomElement(AllLogSp), Deco(t[3], FALSE, mode), Deco(t[4], FALSE, mode)>>
-      [] k = "CMP"  -> <<k, IF keep THEN t[2] ELSE RandomElement(AllCmpOps), Deco(t[3], FALSE, mode), Deco(t[4], FALSE, mode)>>
+      [] k = "CMP"  -> <<k, IF keep \/ t[2] = PctOp THEN t[2] ELSE RandomElement(RelOps(AllCmpOps)),
+                         Deco(t[3], FALSE, mode), Deco(t[4], FALSE, mode)>>
       [] OTHER -> <<k, 0, Deco(t[3], FALSE, mode), Deco(t[4], FALSE, mode)>>
 
 \* aux: leaf mode (0 mixed leaves and every root spelling; 1 all leaves are function calls)
@@ -312,9 +335,11 @@ Decorate ==
 
 SNext == Decorate
 
-\* walks: a random tree in reverse Polish order; aux = number of operator nodes aimed at
-UnaryPool == <<"NOT", "NEG", "PAREN", "PAREN">>
-BinPool   == <<"OR", "AND", "CMP", "CMP", "ADD", "SUB", "MUL", "DIV", "POW">>
+\* walks: a random well-typed tree in reverse Polish order; aux = number of operator nodes aimed at
+UnaryPool(ty) == IF ty = "A" THEN <<"NOT", "NEG", "NEG", "PAREN", "PAREN", "PAREN">> ELSE <<"NOT", "PAREN", "PAREN">>
+BinPool(tl, tr) == IF tl = "A" /\ tr = "A"
+                   THEN <<"OR", "AND", "CMP", "CMP", "CMP", "PCT", "ADD", "SUB", "MUL", "DIV", "POW">>
+                   ELSE <<"OR", "AND">>
 
 WInit ==
     /\ aux \in 1..MaxWalkOps
@@ -331,17 +356,24 @@ PushLeaf ==
 ApplyUnary ==
     /\ Len(forest) >= 1
     /\ aux - ops - 1 >= Len(forest) - 1
-    /\ \E k \in {UnaryPool[RandomElement(1..Len(UnaryPool))]} :
-         \E a \in {IF k = "NOT" THEN RandomElement(AllLogSp) ELSE 0} :
-           LET n == Len(forest) IN forest' = [forest EXCEPT ![n] = <<k, a, forest[n]>>]
+    /\ LET n == Len(forest)
+           pool == UnaryPool(TypeOf(forest[n]))
+       IN  \E k \in {pool[RandomElement(1..Len(pool))]} :
+             \E a \in {IF k = "NOT" THEN RandomElement(AllLogSp) ELSE 0} :
+               forest' = [forest EXCEPT ![n] = <<k, a, forest[n]>>]
     /\ ops' = ops + 1
 
 ApplyBinary ==
     /\ Len(forest) >= 2
     /\ ops < aux
-    /\ \E k \in {BinPool[RandomElement(1..Len(BinPool))]} :
-         \E a \in {IF k \in Logic THEN RandomElement(AllLogSp) ELSE IF k = "CMP" THEN RandomElement(AllCmpOps) ELSE 0} :
-           LET n == Len(forest) IN forest' = Append(SubSeq(forest, 1, n - 2), <<k, a, forest[n - 1], forest[n]>>)
+    /\ LET n == Len(forest)
+           pool == BinPool(TypeOf(forest[n - 1]), TypeOf(forest[n]))
+       IN  \E k0 \in {pool[RandomElement(1..Len(pool))]} :
+             \E a \in {IF k0 \in Logic THEN RandomElement(AllLogSp)
+                        ELSE IF k0 = "CMP" THEN RandomElement(RelOps(AllCmpOps))
+                        ELSE IF k0 = "PCT" THEN PctOp ELSE 0} :
+               forest' = Append(SubSeq(forest, 1, n - 2),
+                                <<IF k0 = "PCT" THEN "CMP" ELSE k0, a, forest[n - 1], forest[n]>>)
     /\ ops' = ops + 1
 
 FinishWalk ==
